@@ -12,7 +12,7 @@ from .common import MachineryError, watchdog
 SAFETY = ['Integrity', 'NoBadFile', 'OnlyRightLength', 'OnceOnly', 'QuiescentComplete']
 LIVE = ['VerifiedStable', 'Eventually', 'AllClosedEventually']
 WITNESSES = ['W_Verified', 'W_TwoDelivered', 'W_LoserCancelled', 'W_ExcLen', 'W_ExcHash']
-TINVS = ['TIntegrity', 'TNoBadFile', 'TOnlyDelivered', 'TOnceOnly', 'TVerifiedStable', 'TComplete']
+TINVS = ['TIntegrity', 'TNoBadFile', 'TOnlyDelivered', 'TOnceOnly', 'TVerifiedStable', 'TComplete', 'TNoCollateral']
 WMAX = 8
 
 
